@@ -104,10 +104,43 @@ def random_cfgs(seed, pid, k=3):
     return out
 
 
-def build_random_table(bins, cfgs, mode):
+def span(ns):
+    """compact text for a sorted list of integers: 1-32,40,64-128"""
+    out = []
+    i = 0
+    ns = sorted(ns)
+    while i < len(ns):
+        j = i
+        while j + 1 < len(ns) and ns[j + 1] == ns[j] + 1:
+            j += 1
+        out.append(str(ns[i]) if i == j else '%d-%d' % (ns[i], ns[j]))
+        i = j + 1
+    return ','.join(out)
+
+
+def dense_table(prop, tier, full):
+    """digit counts of the dense pass: every N in 1..=bound per digit type that the tier's fixed table does not already contain.
+    prop.DENSE = {'quick': {digit bits: bound}, 'thorough': {...}} overrides the default bounds."""
+    default = {'quick': {8: 32, 16: 32, 32: 32, 64: 32}, 'thorough': {8: 128, 16: 128, 32: 128, 64: 128}}
+    bounds = dict(default[tier])
+    bounds.update(getattr(prop, 'DENSE', {}).get(tier, {}))
+    have = core.FULL_CFGS if full else core.QUICK_CFGS
+    # plus the neighbours of the power-of-two digit counts (thresholds of bit masks, block sizes, narrow counters) up to the 8192-bit limit
+    around = {8: [63, 64, 65, 127, 128, 129, 255, 256, 257, 511, 512, 513], 16: [63, 64, 65, 127, 128, 129, 255, 256, 257, 511, 512],
+              32: [63, 64, 65, 127, 128, 129, 255, 256], 64: [63, 64, 65, 127, 128]}
+    out = {}
+    for d in (8, 16, 32, 64):
+        b = bounds.get(d, 0)
+        ns = set(range(1, b + 1)) | (set(around[d]) if b > 0 else set())
+        out[d] = sorted(n for n in ns if n not in have[d])
+    return out
+
+
+def build_random_table(bins, cfgs, mode, variant='rand'):
     """private copy of the driver crate whose configuration table is `cfgs`; returns {bin: path}"""
     ensure_link()
-    d = os.path.join(BUILD, 'harness-rand')
+    rp = repo_path()
+    d = os.path.join(BUILD, 'harness-%s-%s%s' % (variant, '_'.join(bins), '' if rp == '/repo' else '-' + core.h64(rp).to_bytes(8, 'little').hex()[:8]))
     src = os.path.join(d, 'src')
     os.makedirs(os.path.join(src), exist_ok=True)
     real = os.path.join(ROOT, 'harness', 'src')
@@ -139,7 +172,7 @@ def build_random_table(bins, cfgs, mode):
     for b in bins:
         cmd += ['--bin', b]
     env = cargo_env()
-    env['CARGO_TARGET_DIR'] = target_dir('rand')
+    env['CARGO_TARGET_DIR'] = target_dir(variant)
     p = subprocess.run(cmd, env=env, stdout=subprocess.PIPE, stderr=subprocess.STDOUT, text=True)
     if p.returncode != 0:
         errs = '\n'.join([l for l in p.stdout.splitlines() if l.startswith('error')][:15])
@@ -374,7 +407,16 @@ def run_task(task):
             return st
         cfg = core.Cfg(task['cfg'])
         rng = random.Random(task['seed'])
-        reqs = list(prop.requests(cfg, rng, task['n'], task['tier'], task['part'], task['nparts'], st))
+        if task.get('dense'):
+            # dense digit-count pass: the property's own width-sensitive family if it defines one, plus a sample of its normal workload
+            reqs = list(prop.dense_requests(cfg, rng, task['n'], st)) if hasattr(prop, 'dense_requests') else []
+            more = list(prop.requests(cfg, rng, task['n'], task['tier'], task['part'], task['nparts'], st))
+            cap = task['dense']
+            if len(more) > cap:
+                more = [more[i] for i in sorted(rng.sample(range(len(more)), cap))]
+            reqs += more
+        else:
+            reqs = list(prop.requests(cfg, rng, task['n'], task['tier'], task['part'], task['nparts'], st))
         if not reqs:
             return st
         all_reqs = reqs
@@ -495,29 +537,48 @@ def main(argv):
                           'part': part, 'nparts': nparts, 'tier': tier, 'bins': bins, 'n': (n + nparts - 1) // nparts,
                           'timeout': getattr(prop, 'TIMEOUT', 900)})
     randcov = None
-    if tier == 'thorough' and not hasattr(prop, 'make_tasks') and not a.only_aux and not a.cfg and os.environ.get('VERIF_RANDCFG', '1') != '0':
+    densecov = None
+    generic = not hasattr(prop, 'make_tasks') and not a.only_aux and not a.cfg
+
+    def table_tasks(table, modes, variant, tag, nreq, dense=0):
+        """tasks on a driver whose configuration table is generated at run time (same property binary, same requests, same model)"""
+        rbins = {}
+        for mode in modes:
+            rbins[mode] = build_random_table([prop.BIN], table, mode, variant=variant)[prop.BIN]
+        names = ['%s%dx%d' % (sg, d, n) for d in (8, 16, 32, 64) for n in table.get(d, []) for sg in 'ui']
+        for cname in names:
+            cfg = core.Cfg(cname)
+            n = max(1, int(nreq(cfg) * a.scale))
+            per = getattr(prop, 'TASK_REQS', 3000)
+            nparts = max(1, (n + per - 1) // per)
+            for part in range(nparts):
+                tasks.append({'prop': pid, 'cfg': cname, 'seed': core.h64('%d/%s/%s/%s/%d' % (seed, pid, cname, tag, part)), 'part': part, 'nparts': nparts,
+                              'tier': 'quick', 'bins': rbins, 'n': (n + nparts - 1) // nparts, 'timeout': getattr(prop, 'TIMEOUT', 900), 'dense': dense})
+        return names
+
+    if tier == 'thorough' and generic and os.environ.get('VERIF_RANDCFG', '1') != '0':
         rc = random_cfgs(seed, pid)
         try:
-            rbins = {}
-            for mode in ('dev', 'rel'):
-                rbins[mode] = build_random_table([prop.BIN], rc, mode)[prop.BIN]
-            names = ['%s%dx%d' % (sg, d, n) for d in (8, 16, 32, 64) for n in rc[d] for sg in 'ui']
+            names = table_tasks(rc, ('dev', 'rel'), 'rand', 'rand', lambda cfg: min(prop.budget(cfg, 'quick'), 20000) if cfg.bits in (8, 16) else prop.budget(cfg, 'quick'))
             print('[%s] random extra configurations this run: %s' % (pid, ' '.join(n for n in names if n[0] == 'u')), flush=True)
-            for cname in names:
-                cfg = core.Cfg(cname)
-                if hasattr(prop, 'CAST_TYPES') and pid in ('C09', 'C13'):
-                    pass
-                n = max(1, int(prop.budget(cfg, 'quick') * a.scale))
-                if cfg.bits in (8, 16):
-                    n = min(n, 20000)
-                per = getattr(prop, 'TASK_REQS', 3000)
-                nparts = max(1, (n + per - 1) // per)
-                for part in range(nparts):
-                    tasks.append({'prop': pid, 'cfg': cname, 'seed': core.h64('%d/%s/%s/rand/%d' % (seed, pid, cname, part)), 'part': part, 'nparts': nparts,
-                                  'tier': 'quick', 'bins': rbins, 'n': (n + nparts - 1) // nparts, 'timeout': getattr(prop, 'TIMEOUT', 900)})
             randcov = {'configurations': names}
         except BuildError as e:
             st['inconclusive'].append('random-configuration pass: %s' % str(e)[:600])
+    if generic and os.environ.get('VERIF_DENSE', '1') != '0':
+        # dense digit-count sweep: every N up to a bound for every digit type, a small budget each (DESIGN 4: the quantifier is 'every N >= 1')
+        dt = dense_table(prop, tier, full)
+        if any(dt.values()):
+            try:
+                t1 = time.time()
+                dn = int(getattr(prop, 'DENSE_REQS', {}).get(tier, 60 if tier == 'quick' else 300))
+                names = table_tasks(dt, ('dev',) if tier == 'quick' else getattr(prop, 'DENSE_MODES', ('dev', 'rel')), 'dense', 'dense',
+                                    lambda cfg: max(10, min(dn, prop.budget(cfg, 'quick'))), dense=max(100, 2 * dn))
+                print('[%s] dense digit-count pass: %d extra types (%s), built in %.0fs' % (
+                    pid, len(names), ', '.join('u%d: N=%s' % (d, span(dt[d])) for d in (8, 16, 32, 64) if dt.get(d)), time.time() - t1), flush=True)
+                densecov = {'types': len(names), 'digit_counts': {'u%d' % d: span(dt[d]) for d in (8, 16, 32, 64) if dt.get(d)},
+                            'requests_per_type': dn, 'build_modes': ['dev'] if tier == 'quick' else list(getattr(prop, 'DENSE_MODES', ('dev', 'rel')))}
+            except BuildError as e:
+                st['inconclusive'].append('dense digit-count pass: %s' % str(e)[:600])
     # heavier tasks first
     tasks.sort(key=lambda t: -t.get('weight', core.Cfg(t['cfg']).bits if 'cfg' in t else 0))
     with cf.ProcessPoolExecutor(max_workers=a.jobs) as ex:
@@ -535,6 +596,8 @@ def main(argv):
         st['viol_list'] = [v for v in st['viol_list'] if v['op'] in a.ops.split(',')]
     if randcov:
         extra_cov['random_extra_configurations'] = randcov
+    if densecov:
+        extra_cov['dense_digit_count_pass'] = densecov
     if tier == 'thorough' and not hasattr(prop, 'make_tasks') and not a.cfg and os.environ.get('VERIF_COVERAGE', '1') != '0':
         try:
             import aux
@@ -665,7 +728,11 @@ def replay(prop, path):
             hdr = dict(kv.split('=') for kv in out[hi].split()[1:])
             resp = out[hi + 1:]
         else:
-            paths, _ = build([prop.BIN], mode, full=full)
+            if toks[0] not in core.cfg_names(True) and toks[0] not in core.cfg_names(False) and toks[0] not in getattr(prop, 'CAST_TYPES', []):
+                # a configuration of the dense / random passes: one-off driver with just this digit count
+                paths = build_random_table([prop.BIN], {d: ([cfg.n] if d == cfg.dbits else []) for d in (8, 16, 32, 64)}, mode, variant='replay')
+            else:
+                paths, _ = build([prop.BIN], mode, full=full)
             hdr, resp = run_driver(paths[prop.BIN], v['request'] + '\n', 600)
     except BuildError as e:
         print(str(e))
